@@ -337,6 +337,14 @@ Section G4.
     replace (length pre) with (length pre + 0)%nat by lia. rewrite nth_app_exact by reflexivity. reflexivity.
   Qed.
 
+  Lemma rk_at_app2 pre (s t : m128) post j : length pre = j ->
+    rk_at (pre ++ s :: t :: post) (N.of_nat (S j)) = t.
+  Proof.
+    intros Hj.
+    replace (pre ++ s :: t :: post) with ((pre ++ [s]) ++ t :: post) by (rewrite <- app_assoc; reflexivity).
+    apply rk_at_app. rewrite app_length. cbn [length]. lia.
+  Qed.
+
   Lemma fold128_chain : forall (l : list (N * N)) j pre k post,
     length pre = j -> map fst l = map N.of_nat (seq (S j) (length l)) ->
     (length l <= length post)%nat ->
@@ -349,6 +357,7 @@ Section G4.
     - reflexivity.
     - cbn [fold_left map length seq fst snd] in *. injection Hidx as Hi Hidx. subst i.
       destruct post as [|p0 post]; [cbn in Hpost; lia|].
+      change (N.pos (Pos.of_succ_nat j)) with (N.of_nat (S j)).
       replace (N.of_nat (S j) - 1) with (N.of_nat j) by lia.
       rewrite (rk_at_app pre k (p0 :: post) j Hj). rewrite Nat2N.id.
       replace (pre ++ k :: p0 :: post) with ((pre ++ [k]) ++ p0 :: post) by (rewrite <- app_assoc; reflexivity).
@@ -370,12 +379,11 @@ Section G4.
     - reflexivity.
     - cbn [fold_left map length seq fst snd] in *. injection Hidx as Hi Hidx. subst i.
       destruct post as [|p0 post]; [cbn in Hpost; lia|].
+      change (N.pos (Pos.succ (Pos.of_succ_nat j))) with (N.of_nat (S (S j))).
       replace (N.of_nat (S (S j)) - 2) with (N.of_nat j) by lia.
       replace (N.of_nat (S (S j)) - 1) with (N.of_nat (S j)) by lia.
       rewrite (rk_at_app pre s (t :: p0 :: post) j Hj).
-      replace (pre ++ s :: t :: p0 :: post) with ((pre ++ [s]) ++ t :: p0 :: post) at 1
-        by (rewrite <- app_assoc; reflexivity).
-      rewrite (rk_at_app (pre ++ [s]) t (p0 :: post) (S j)) by (rewrite app_length; cbn [length]; lia).
+      rewrite (rk_at_app2 pre s t (p0 :: post) j Hj).
       rewrite Nat2N.id.
       replace (pre ++ s :: t :: p0 :: post) with ((pre ++ [s; t]) ++ p0 :: post) by (rewrite <- app_assoc; reflexivity).
       replace (S (S j)) with (length (pre ++ [s; t])) at 1 by (rewrite app_length; cbn [length]; lia).
@@ -444,7 +452,9 @@ Section G4.
   Proof.
     split; [vm_compute; reflexivity|]. split; [|split; [|reflexivity]].
     - unfold ops256, mkrkey256. cbn [map fst snd ops_ok]. repeat split; vm_compute; reflexivity.
-    - unfold ops256, mkrkey256. cbn [map fst snd]. repeat constructor; vm_compute; auto.
+    - unfold ops_shuffles_ok. apply Forall_forall. intros op Hin.
+      unfold ops256, mkrkey256 in Hin. cbn [map fst snd In] in Hin.
+      repeat (destruct Hin as [<- | Hin]; [cbn [fst]; auto|]). contradiction.
   Qed.
 
   (* ---------------------------------------------------------------- G4 *)
@@ -454,20 +464,59 @@ Section G4.
     intros key Hlen.
     destruct repo_mkrkey128_ok as (Hidx & Hrc & Hn).
     do 16 (destruct key as [|? key]; [discriminate Hlen|]). destruct key; [|discriminate Hlen].
-    (* FIPS side *)
-    unfold KeyExpansion. cbn [length Nat.div Nat.divmod fst Nat.add Nat.mul Nat.sub words_of firstn skipn].
-    change 40%nat with (4 * length (map snd mkrkey128))%nat.
-    rewrite (expand128_chain (map snd mkrkey128) 0 [] _ _ _ _ eq_refl Hrc).
-    cbn [app]. rewrite round_keys_concat by apply fchain128_wf.
-    rewrite sim128 by reflexivity.
-    (* model side *)
-    unfold repo_key_expand_128_aesni, key_expand_128_aesni.
-    change (load_keys loads128 ?k (rkeys_init rkeys_slots)) with ([] ++ firstn 16 k :: repeat [] 14).
-    cbn [firstn].
+    match goal with
+    | |- context [KeyExpansion sb [?x0;?x1;?x2;?x3;?x4;?x5;?x6;?x7;?x8;?x9;?x10;?x11;?x12;?x13;?x14;?x15]] =>
+      (* FIPS side *)
+      change (KeyExpansion sb [x0;x1;x2;x3;x4;x5;x6;x7;x8;x9;x10;x11;x12;x13;x14;x15])
+        with (expand sb 4 (4 * length (map snd mkrkey128))
+                     ([] ++ [[x0;x1;x2;x3]; [x4;x5;x6;x7]; [x8;x9;x10;x11]; [x12;x13;x14;x15]]));
+      rewrite (expand128_chain (map snd mkrkey128) 0 [] _ _ _ _ eq_refl Hrc);
+      cbn [app]; rewrite round_keys_concat by apply fchain128_wf;
+      rewrite sim128 by reflexivity;
+      (* model side *)
+      change (repo_key_expand_128_aesni sb [x0;x1;x2;x3;x4;x5;x6;x7;x8;x9;x10;x11;x12;x13;x14;x15])
+        with (fold_left (fun rk '(i, rcon) =>
+                 upd rk (N.to_nat i) (mkrkey sb (rk_at rk (i - 1)) (rk_at rk (i - 1)) [4; 8] 255 rcon))
+                mkrkey128
+                ([] ++ flat4 [x0;x1;x2;x3] [x4;x5;x6;x7] [x8;x9;x10;x11] [x12;x13;x14;x15] :: repeat [] 14))
+    end.
     rewrite (fold128_chain mkrkey128 0 [] _ (repeat [] 14) eq_refl Hidx) by (rewrite Hn; cbn; lia).
-    cbn [app]. rewrite Hn.
-    rewrite firstn_app_exact; [reflexivity|].
-    clear. generalize (map snd mkrkey128) as l, (flat4 [n; n0; n1; n2] [n3; n4; n5; n6] [n7; n8; n9; n10] [n11; n12; n13; n14]).
-    assert (Hl : length (map snd mkrkey128) = 10%nat) by reflexivity.
-  Abort.
+    cbn [app]. apply firstn_app_exact.
+    generalize (flat4 [n; n0; n1; n2] [n3; n4; n5; n6] [n7; n8; n9; n10] [n11; n12; n13; n14]).
+    generalize (map snd mkrkey128) (eq_refl : length (map snd mkrkey128) = 10%nat).
+    clear. intros l. revert l.
+    assert (H : forall l k, length (mchain128 l k) = S (length l)).
+    { induction l as [|x l IH]; intros k; [reflexivity|]. cbn [mchain128 length]. rewrite IH. reflexivity. }
+    intros l Hl k. rewrite H, Hl. reflexivity.
+  Qed.
+
+  Theorem key_expand_256_aesni_eq : forall key, length key = 32%nat ->
+    repo_key_expand_256_aesni sb key = round_keys (KeyExpansion sb key).
+  Proof.
+    intros key Hlen.
+    destruct repo_mkrkey256_ok as (Hidx & Hok & Hsh & Hn).
+    do 32 (destruct key as [|? key]; [discriminate Hlen|]). destruct key; [|discriminate Hlen].
+    match goal with
+    | |- context [KeyExpansion sb [?x0;?x1;?x2;?x3;?x4;?x5;?x6;?x7;?x8;?x9;?x10;?x11;?x12;?x13;?x14;?x15;
+                                   ?y0;?y1;?y2;?y3;?y4;?y5;?y6;?y7;?y8;?y9;?y10;?y11;?y12;?y13;?y14;?y15]] =>
+      change (KeyExpansion sb [x0;x1;x2;x3;x4;x5;x6;x7;x8;x9;x10;x11;x12;x13;x14;x15;
+                               y0;y1;y2;y3;y4;y5;y6;y7;y8;y9;y10;y11;y12;y13;y14;y15])
+        with (expand sb 8 (4 * length ops256)
+                     ([] ++ [[x0;x1;x2;x3]; [x4;x5;x6;x7]; [x8;x9;x10;x11]; [x12;x13;x14;x15];
+                             [y0;y1;y2;y3]; [y4;y5;y6;y7]; [y8;y9;y10;y11]; [y12;y13;y14;y15]]));
+      rewrite (expand256_chain ops256 0 [] _ _ _ _ _ _ _ _ eq_refl Hok);
+      cbn [app]; rewrite round_keys_concat by apply fchain256_wf;
+      rewrite sim256 by (try reflexivity; exact Hsh);
+      change (repo_key_expand_256_aesni sb [x0;x1;x2;x3;x4;x5;x6;x7;x8;x9;x10;x11;x12;x13;x14;x15;
+                               y0;y1;y2;y3;y4;y5;y6;y7;y8;y9;y10;y11;y12;y13;y14;y15])
+        with (fold_left (fun rk '(i, shuffle, rcon) =>
+                 upd rk (N.to_nat i) (mkrkey sb (rk_at rk (i - 2)) (rk_at rk (i - 1)) [4; 8] shuffle rcon))
+                mkrkey256
+                ([] ++ flat4 [x0;x1;x2;x3] [x4;x5;x6;x7] [x8;x9;x10;x11] [x12;x13;x14;x15]
+                    :: flat4 [y0;y1;y2;y3] [y4;y5;y6;y7] [y8;y9;y10;y11] [y12;y13;y14;y15] :: repeat [] 13))
+    end.
+    rewrite (fold256_chain mkrkey256 0 [] _ _ (repeat [] 13) eq_refl Hidx) by (rewrite Hn; cbn; lia).
+    cbn [app]. rewrite Hn. change (skipn 13 (repeat [] 13)) with (@nil m128).
+    rewrite app_nil_r. reflexivity.
+  Qed.
 End G4.
